@@ -129,7 +129,7 @@ def all_jobs():
     THRW = '_ZN4bloc12RuntimeError9throwableENS_6EXC_RTE'
     for fn, mg, uw in (('docatch', '_ZNK4bloc14BEGINStatement7docatchERKNS_12RuntimeErrorERNS_7ContextE', 18), ('doit', '_ZNK4bloc14BEGINStatement4doitERNS_7ContextE', 18)):
         J.append(dict(id='stmt_begin_' + fn, src='blocc/statement_begin.cpp', contract='stmt_begin.c', enforce=mg, roots=[mg], replace=[FINDT, THRW],
-                      cut=[RUN, FINDT, THRW], props=['C01', 'C07'], pretty='bloc::BEGINStatement::' + fn, canaries=['normal', 'exceptional'],
+                      cut=[RUN, FINDT, THRW], props=['C01', 'C07'], pretty='bloc::BEGINStatement::' + fn, canaries=['normal', 'exceptional'], defines=['JOB_' + fn.upper()],
                       unwind=uw, unwind_why='iteration over the handler list, modelled by an array of at most 3 `when` clauses; comparison of constant C strings of at most 15 characters (complete)', bounded_inputs=True,
                       transparent=[PAIR_SE], structs=DEFAULT_STRUCTS + [STD_STRING, VEC_CHAR, 'bloc::Expression', 'bloc::Context', 'bloc::Executable', 'bloc::BEGINStatement']))
     for fn, mg in (('throwable', THRW), ('findThrowable', FINDT)):
@@ -137,6 +137,46 @@ def all_jobs():
                       props=['C07'], pretty='bloc::RuntimeError::' + fn, canaries=['normal'], globals=['bloc::RuntimeError::THROWABLES'],
                       unwind=18, unwind_why='loop over the 3 rows of the constant table RuntimeError::THROWABLES; comparison of constant C strings of at most 15 characters (both complete)',
                       enums=['bloc::EXC_RT'], structs=['bloc::RuntimeError', STD_STRING, 'bloc::RuntimeError::THROWABLE']))
+    mg = '_ZN4bloc7Context14onRuntimeErrorEv'
+    J.append(dict(id='ctx_onRuntimeError', src='blocc/context.cpp', contract='ctx_error.c', enforce=mg, roots=[mg], replace=[], cut=['_ZN4bloc7Context4Pool5purgeEv'],
+                  props=['C07'], pretty='bloc::Context::onRuntimeError', canaries=['normal'], unwind=6, bounded_inputs=True,
+                  unwind_why='purge loop over the control stack, modelled by an array of at most 4 open loops',
+                  structs=DEFAULT_STRUCTS + ['bloc::Context', 'bloc::Context::Control', 'bloc::Controller']))
+    mg = '_ZNK4bloc14RAISEStatement4doitERNS_7ContextE'
+    J.append(dict(id='stmt_raise_doit', src='blocc/statement_raise.cpp', contract='stmt_raise.c', enforce=mg, roots=[mg], replace=[FINDT], cut=[FINDT, RTE_CTOR, RTE_CTOR_S],
+                  props=['C01', 'C07'], pretty='bloc::RAISEStatement::doit', canaries=['exceptional'], unwind=18,
+                  unwind_why='comparison of constant C strings of at most 15 characters (complete)',
+                  structs=DEFAULT_STRUCTS + [STD_STRING, VEC_CHAR, 'bloc::Expression', 'bloc::Context', 'bloc::RAISEStatement']))
+    mg = '_ZNK4bloc9Statement7executeERNS_7ContextE'
+    J.append(dict(id='stmt_execute', src='blocc/statement.cpp', contract='stmt_execute.c', enforce=mg, roots=[mg], replace=[],
+                  cut=['_ZNK4bloc9Statement9trace_preERNS_7ContextE', '_ZNK4bloc9Statement10trace_postERNS_7ContextE', '_ZN4bloc7Context4Pool5clearEv'],
+                  props=['C07'], pretty='bloc::Statement::execute', canaries=['normal', 'exceptional'],
+                  structs=DEFAULT_STRUCTS + ['bloc::Context', 'bloc::Statement']))
+    J.append(dict(id='exec_run', src='blocc/executable.cpp', contract='exec_run.c', enforce=RUN, roots=[RUN], replace=[], cut=['_ZN4bloc7Context14onRuntimeErrorEv', mg],
+                  props=['C06', 'C07'], pretty='bloc::Executable::run', canaries=['normal', 'exceptional'], unwind=10, bounded_inputs=True,
+                  unwind_why='statement list modelled by an array of at most 2 statements; at most 3 statement steps per run',
+                  structs=DEFAULT_STRUCTS + ['bloc::Context', 'bloc::Statement', 'bloc::Executable']))
+    # ---- C16: plugin permissions ----
+    BANNED = '_ZN4bloc13PluginManager12bannedPluginERKNSt7__cxx1112basic_stringIcSt11char_traitsIcESaIcEEE'
+    UNBAN = '_ZN4bloc13PluginManager11unbanPluginERKNSt7__cxx1112basic_stringIcSt11char_traitsIcESaIcEEE'
+    for fn, mg in (('bannedPlugin', BANNED), ('unbanPlugin', UNBAN)):
+        J.append(dict(id='pm_' + fn, src='blocc/plugin_manager.cpp', contract='plugin_perm.c', enforce=mg, roots=[mg], replace=[], cut=[],
+                      props=['C16'], pretty='bloc::PluginManager::' + fn, canaries=['normal'], unwind=6, bounded_inputs=True,
+                      unwind_why='search loop over the list of granted names, modelled by an array of at most 3 names',
+                      enums=['bloc::EXC_RT'], structs=['bloc::RuntimeError', STD_STRING, 'bloc::PluginManager']))
+    mg = '_ZN4bloc21ComplexCTORExpression5parseERNS_6ParserERNS_7ContextEj'
+    J.append(dict(id='ctor_parse', src='blocc/expression_complex_ctor.cpp', contract='ctor_parse.c', enforce=mg, roots=[mg], replace=[], cut=[BANNED],
+                  props=['C16'], pretty='bloc::ComplexCTORExpression::parse', canaries=['normal', 'exceptional'], unwind=8, bounded_inputs=True,
+                  unwind_why='argument list of at most 2 expressions (stub of Parser::pop yields at most 5 tokens), one candidate constructor',
+                  structs=DEFAULT_STRUCTS + [STD_STRING, 'bloc::Context', 'bloc::ComplexCTORExpression', 'bloc::PLUGGED_MODULE', 'bloc::Token', 'bloc::ParseError', 'bloc::PluginManager', 'PLUGIN_CTOR', 'PLUGIN_INTERFACE', 'PLUGIN_TYPE']))
+    mg = '_ZN4bloc15IMPORTStatement5parseERNS_6ParserERNS_7ContextE'
+    J.append(dict(id='import_parse', src='blocc/statement_import.cpp', contract='import_parse.c', enforce=mg, roots=[mg], replace=[], cut=['_ZN4bloc9StatementD2Ev'],
+                  props=['C16'], pretty='bloc::IMPORTStatement::parse', canaries=['normal', 'exceptional'],
+                  structs=DEFAULT_STRUCTS + [STD_STRING, 'bloc::Context', 'bloc::IMPORTStatement', 'bloc::Token', 'bloc::ParseError', 'bloc::Expression']))
+    mg = '_ZNK4bloc7Context16createChildShellERS0_'
+    J.append(dict(id='ctx_createChildShell', src='blocc/context.cpp', contract='ctx_child.c', enforce=mg, roots=[mg], replace=[], cut=[],
+                  props=['C16'], pretty='bloc::Context::createChildShell', canaries=['normal'],
+                  structs=DEFAULT_STRUCTS + [STD_STRING, 'bloc::Context']))
     return J
 
 def known_findings():
